@@ -313,6 +313,8 @@ def exec_for(ex, node, env):
       if model.distinct:
         ctx.assume(cardlemmas.card(vis) == k)
     assume_invs(ex, spec, env, ghost_at(k, vis))
+    if spec.export_visited and vis is not None:
+      env.assign(spec.export_visited, VSet(vis, model.visited_sort))
     elem = model.elem(ctx, k)
     if vis is not None and model.distinct:
       ctx.assume(z3.Not(z3.IsMember(model.to_term(elem), vis)))
